@@ -179,9 +179,16 @@ def is_safety_failure(d):
     return False
 
 
-def func_result(res, fn_name):
-    """success flag of the (unique) verified function whose last path segment is fn_name."""
+def func_result(res, fn_name, sel=None):
+    """verified functions whose last path segment is fn_name (and, for impl methods, whose type matches the selector)."""
     hits = [(k, v) for k, v in res.get("funcs", {}).items() if k.split("::")[-1] == fn_name]
+    if sel and sel.startswith("impl "):
+        head = sel.split("::")[0].strip()[5:].strip()
+        ty = head.split(" for ")[-1].strip().split("#")[0].strip()
+        ty = re.sub(r"<.*>", "", ty).lstrip("&").strip()
+        q = [(k, v) for k, v in hits if len(k.split("::")) >= 2 and k.split("::")[-2] == ty]
+        if q:
+            return q
     return hits
 
 
@@ -269,7 +276,7 @@ def cmd_check(args):
                 continue
             safety_only = modes[pid] == "safety"
             name = f"{un}::{it['fn_name']}" + (" [no-abort obligations]" if safety_only else "")
-            fr = func_result(res, it["fn_name"])
+            fr = func_result(res, it["fn_name"], it["sel"])
             has_body = any(True for _ in fr)
             ms = sum(v["ms"] for _, v in fr)
             fails = fail_by_item.get(it["idx"], [])
